@@ -5,6 +5,9 @@
     F:1                         render inside a function (no effect on the prediction)
     P:<op>  C:<op>  W:<op>      mutators of the parent before / of the child / of the parent during `&`
     K:<kind>                    paren | subst | pipeF | pipeM | pipeL | async   (one or two, outer first)
+  or a schedule of raw system calls of several processes on one shared `SystemState` (see `parseXOp` below):
+    X:<pid> fork | umask M | chdir D | open F | dup N MIN [x] | dup2 N M | close N | cloexec N 0|1 |
+            sigaction SIG D|I|C | block SIG | unblock SIG | rlimit V      (model: Fork/Shared.lean, Spec: `specProc`)
   Ops: set N V | unset N | export N V | readonly N V | fn F B | unfn F | alias A V | unalias A | opt+ O |
        opt- O | shift | args X… | cd D | umask M | trap S d|i|cN | fdw N F | fdr N | fdd N M | fdc N |
        local N V | raise S
@@ -140,7 +143,62 @@ def parseCase (line : String) : Option Case := do
   else if ¬ ((c.mid.drop 1).headD []).isEmpty ∧ c.kinds.length < 3 then none
   else some c
 
+/-! ### `X:` cases — a schedule of raw system calls of several processes on one `SystemState`
+
+    X:<pid> fork | umask M | chdir D | open F | dup N MIN [x] | dup2 N M | close N | cloexec N 0|1 |
+            sigaction SIG D|I|C | block SIG | unblock SIG | rlimit 4|16|18|unlimited -/
+
+def XDIRS := DIRS ++ ["s", ".", "/dx"]
+def XFDS := ["0", "1", "2", "3", "4", "5", "10", "17", "20"]
+def XLIMITS := ["4", "16", "18", "unlimited"]
+
+def parseDisp : String → Option Trap.Disp
+  | "D" => some .default
+  | "I" => some .ignore
+  | "C" => some .catch
+  | _ => none
+
+def parseSig (s : String) : Option Nat := do
+  let c ← parseCond s
+  if c = 0 then none else pure c
+
+def parseXOp (ws : List String) : Option XOp :=
+  match ws with
+  | ["fork"] => some .fork
+  | ["umask", m] => do guardIn m MASKS; pure (.call (.umask m))
+  | ["chdir", d] => do guardIn d XDIRS; pure (.call (.chdir d))
+  | ["open", f] => do guardIn f FILES; pure (.call (.open f))
+  | ["dup", n, m] => do guardIn n XFDS; guardIn m XFDS; pure (.call (.dup (← n.toNat?) (← m.toNat?) false))
+  | ["dup", n, m, "x"] => do guardIn n XFDS; guardIn m XFDS; pure (.call (.dup (← n.toNat?) (← m.toNat?) true))
+  | ["dup2", n, m] => do guardIn n XFDS; guardIn m XFDS; pure (.call (.dup2 (← n.toNat?) (← m.toNat?)))
+  | ["close", n] => do guardIn n XFDS; pure (.call (.close (← n.toNat?)))
+  | ["cloexec", n, b] => do guardIn n XFDS; guardIn b ["0", "1"]; pure (.call (.setfd (← n.toNat?) (b == "1")))
+  | ["sigaction", s, d] => do pure (.call (.sigaction (← parseSig s) (← parseDisp d)))
+  | ["block", s] => do pure (.call (.sigmask true (← parseSig s)))
+  | ["unblock", s] => do pure (.call (.sigmask false (← parseSig s)))
+  | ["rlimit", v] => do guardIn v XLIMITS; pure (.call (.setrlimit v))
+  | _ => none
+
+def parseXItem (item : String) : Option (Nat × XOp) :=
+  match item.splitOn ":" with
+  | ["X", body] =>
+    match words body with
+    | pid :: ws => do
+      let n ← pid.toNat?
+      if n < 2 ∨ n > 40 then none else pure (n, ← parseXOp ws)
+    | [] => none
+  | _ => none
+
+def parseXCase (line : String) : Option (List (Nat × XOp)) :=
+  let items := (splitTrim line ";").filter (· ≠ "")
+  if items.isEmpty ∨ items.length > 40 then none else items.mapM parseXItem
+
 def runLine (line : String) : String :=
+  if line.startsWith "X:" then
+    match parseXCase line with
+    | none => "bad-case\t-"
+    | some sched => xObservation implCopied sched ++ "\t=" ++ specXObservation sched
+  else
   match parseCase line with
   | none => "bad-case\t-"
   | some c => observation (runCase implCopied c) ++ "\t=" ++ specObservation c
